@@ -308,6 +308,10 @@ func (v *VM) exec() {
 			v.stack = v.stack[:len(v.stack)-int(i.A)+1]
 			if i.B == 1 {
 				tmp := vs[len(vs)-1]
+				if tmp.t.base() == TypeString {
+					// a string is spread as its bytes, like copy does (data() would yield runes)
+					tmp = tmp.convert(TypeSlice)
+				}
 				vs = append(vs[:len(vs)-1], tmp.data()...)
 			}
 			if s.value != nil {
